@@ -17,6 +17,23 @@ KEY_POOL_FULL = KEY_POOL_QUICK + [
 ]
 
 
+def reserved_variants():
+    """case / style variants of names that are reserved somewhere (keywords, builtins, typing and framework names, BaseModel attributes):
+    a sanitiser that checks the raw key, or checks before / after the wrong conversion step, shows up on exactly these"""
+    import inflection
+    bases = ["json", "copy", "validate", "parse_obj", "schema_json", "from_orm", "dict", "construct", "update_forward_refs", "config",
+             "list", "field", "optional", "class", "none", "true", "any", "union", "base_model", "dataclass", "attr", "date", "datetime", "type", "id"]
+    out = []
+    for b in bases:
+        for v in (b, b.upper(), b.capitalize(), inflection.camelize(b, False), inflection.camelize(b, True), b.replace("_", "-"), b + "s"):
+            if v not in out:
+                out.append(v)
+    return out
+
+
+KEY_POOL_RESERVED = reserved_variants()
+
+
 def fold(key, convert_unicode=True):
     """case/punctuation folding of a JSON key (C11's documented domain: keys of one object are pairwise distinct after it)."""
     import re
